@@ -27,9 +27,14 @@ domain) - the self-consistency clauses len / lenfield / fresh / repeat / eq are 
 Decoded start states: the reference octets of the initial values are decoded; if the decoder refuses them or
 returns other parameter values (C06 / C07's business) that start state is skipped and counted, never reported.
 
-A violating history is reported under its *culprit*: the last event of the shortest violating prefix (enumeration
-is shortest-first and extensions of a violating history are pruned), so one defect site gives one signature
-`C11.<clause>/<Machine>/<kind>/after=<constructor|decode|setter name|pack|set_frame_len_in_header>`."""
+Attribution: every clause is evaluated at every state.  A history is reported under the first clause (order above)
+that fails at its final state and did NOT fail at its parent state (the history without its last event), i.e. the
+last event is the *culprit*; a failure inherited from the parent state is not reported again, and it does not hide
+a different clause that a later event breaks.  So one defect site gives one signature
+`C11.<clause>/<Machine>/<kind>/after=<constructor|decode|setter name|pack|set_frame_len_in_header>`.
+At the empty history (start state) only the self-consistency clauses exception / len / lenfield / repeat / eq are
+reported: whether constructor + pack (or decode + re-pack) produce the right octets is C02 / C03 / C06 / C07 / C17's
+subject; the start state's complete verdict is nevertheless the baseline for the first event."""
 
 from __future__ import annotations
 
@@ -53,8 +58,8 @@ EXHAUSTIVE = True
 RULE = (
     "case = one history (machine, header configuration, initial parameter set, start kind constructed|decoded, event "
     "sequence) executed on fresh real objects. Stateless mode: EVERY event sequence over the machine's menu "
-    "(setter x argument alphabet, pack; USLP also set_frame_len_in_header) up to depth D, no de-duplication, "
-    "extensions of a violating history pruned. State-hashing mode: breadth-first search over the (larger) menu, "
+    "(setter x argument alphabet, pack; USLP also set_frame_len_in_header) up to depth D, no de-duplication; "
+    "a history is reported under the first oracle clause that fails after its last event and did not fail before it. State-hashing mode: breadth-first search over the (larger) menu, "
     "states merged only when the full recursive __dict__ dump of the implementation object AND the reference "
     "model are equal (sound key), to depth D or to the fixpoint. Argument alphabets grow, keep, shrink the length "
     "and return to the original value. Purity shards: every constructor and pack() of all 8 PDU kinds, PusTc, "
@@ -63,8 +68,13 @@ RULE = (
     "configuration x initial set x first event); the empty history of a split shard is counted once."
 )
 BOUNDS = {
-    "quick": "stateless depth<=3, all machines, CRC{0,1} x file size{32,64} x 2 ID-width pairs, 2 start kinds; purity over the quick corpora",
-    "thorough": "state-hashing BFS on the extended menus to depth 6 or fixpoint + stateless depth<=4 on the quick menus; 4 ID-width pairs; purity over the thorough corpora",
+    "quick": ("stateless depth<=3 over the DESIGN.md menus (3..12 events per machine), 9 machines, CFDP machines in CRC{0,1} x file size{32,64} x "
+              "ID/sequence widths {(1,1),(2,4)}, 1..3 initial parameter sets, start kinds constructed + decoded: 135 071 histories, "
+              "4 885 distinct states, 388 158 setter/pack events; purity: 974 constructor+pack cases over 13 packet classes"),
+    "thorough": ("state-hashing BFS over the extended menus (3..18 events) to depth 6 or the fixpoint (fixpoint reached by every CFDP and USLP "
+                 "search; PusTc/PusTm stop at depth 6 because the cached CRC multiplies the states) + stateless depth<=4 over the DESIGN.md "
+                 "menus; widths {(1,1),(2,4),(4,8),(8,2)}: 3.4 million histories, 156 510 distinct states, 10.7 million events; "
+                 "purity: 1 736 cases over the thorough corpora"),
 }
 ASSUMPTIONS = [
     "reference encoders ref/cfdp.py, ref/pus.py, ref/uslp.py transcribe the standards (bound to the repository's vectors by selftest/st_ref_*.py)",
@@ -84,8 +94,12 @@ CACHE_ATTRS = {("FileStoreRequestTlv", "tlv"), ("FileStoreResponseTlv", "tlv")}
 
 def dump(x, skip_caches=False, _stack=()):
     """Hashable, by-value, type-strict image of the complete attribute graph of x."""
-    if x is None or isinstance(x, (bool, str, float)):
+    if x is None or isinstance(x, str):
         return x
+    if isinstance(x, bool):
+        return ("B", x)
+    if isinstance(x, float):
+        return ("F", x)
     if isinstance(x, enum.Enum):
         return ("E", type(x).__name__, x.value)
     if isinstance(x, int):
@@ -154,7 +168,9 @@ def held_diff(before, after):
     for (lab, a), (_, b) in zip(before, after):
         if a != b:
             p = diff_path(a, b) or ""
-            return lab + ("." + p if p and not p.startswith("[") else p)
+            if p in ("", "<value>"):
+                return lab
+            return lab + (p if p.startswith("[") or p.startswith("<") else "." + p)
     return None
 
 
@@ -171,6 +187,10 @@ def safe_eq(a, b):
         return bool(a == b)
     except Exception as e:  # an == that raises is an observation like any other
         return "raises:" + type(e).__name__
+
+
+class NotAStartState(Exception):
+    """the initial values are deliberately not decodable (USLP initial set with a stale frame length)"""
 
 
 class Fail:
@@ -222,7 +242,7 @@ class Machine:
 
     # -- per machine -------------------------------------------------------------------------------
     def construct(self, model):
-        """(object, [(label, caller-held object)]) through the public constructor, all inputs fresh"""
+        """(callable that runs the public constructor, [(label, caller-held object)]); every input object is fresh"""
         raise NotImplementedError
 
     def ref(self, model):
@@ -267,7 +287,7 @@ class Machine:
             self.update(model, attr, spec)
             return
         arg = self.make_arg(attr, spec)
-        held.append((name, arg))
+        held.append((f"argument-of-{attr}-setter", arg))
         setattr(self.target(obj, attr), attr, arg)
         self.update(model, attr, spec)
 
@@ -330,6 +350,10 @@ WIDTHS_Q = [(1, 1), (2, 4)]
 WIDTHS_T = [(1, 1), (2, 4), (4, 8), (8, 2)]
 
 
+def _cfg(cfg):
+    return dict(U.CFG_DEFAULT, **cfg)
+
+
 class CfdpMachine(Machine):
     family = "cfdp"
 
@@ -354,17 +378,17 @@ class CfdpMachine(Machine):
     def construct(self, model):
         # the caller's configuration carries the direction the PDU kind does NOT use, so that a constructor
         # writing its direction into the caller's object is visible
-        ctor, held = cfdp_inputs(self.kind, U.norm({"cfg": model["cfg"]})["cfg"], model["p"], 1 - R.DIRECTION[self.kind])
+        ctor, held = cfdp_inputs(self.kind, _cfg(model["cfg"]), model["p"], 1 - R.DIRECTION[self.kind])
         return ctor, held
 
     def ref(self, model):
-        return R.encode_pdu(self.kind, U.norm({"cfg": model["cfg"]})["cfg"], model["p"])
+        return R.encode_pdu(self.kind, _cfg(model["cfg"]), model["p"])
 
     def decode(self, model, raw):
         return self.cls().unpack(raw)
 
     def decoded_ok(self, obj, model):
-        cfg = U.norm({"cfg": model["cfg"]})["cfg"]
+        cfg = _cfg(model["cfg"])
         return self.unit.observe(obj) == self.unit._exp(cfg, model["p"])
 
     def lenfield(self, raw, model):
@@ -492,7 +516,7 @@ class CfdpMachine(Machine):
             raise AssertionError(attr)
 
     def repro(self, model0, start, names):
-        cfg = U.norm({"cfg": model0["cfg"]})["cfg"]
+        cfg = _cfg(model0["cfg"])
         lines = [U.ctor_source(self.kind, cfg, model0["p"])]
         if start == "decoded":
             lines.append(f"pdu = {self.kind}.unpack(bytes(pdu.pack()))")
@@ -777,7 +801,7 @@ class UslpMachine(Machine):
     def decode(self, model, raw):
         p = model["p"]
         if p["hdr"]["frame_len"] != len(raw) - 1:
-            raise ValueError("initial frame length field is stale by construction: not a decodable start state")
+            raise NotAStartState()
         f = UU._f()
         ft, props = UU.matching_properties(self._recipe(p), "fixed" if p["rule"] in RU.FIXED_RULES else "var", len(raw))
         return f.TransferFrame.unpack(raw_frame=raw, frame_type=ft, frame_properties=props)
@@ -797,6 +821,41 @@ class UslpMachine(Machine):
 
     def lenfield(self, raw, model):
         return unpack_fields(raw, RU.HDR_WIDTHS)[6], model["p"]["hdr"]["frame_len"]
+
+    def repro(self, model0, start, names):
+        p = model0["p"]
+        h = p["hdr"]
+        lines = ["from spacepackets.uslp.header import *; from spacepackets.uslp.frame import *",
+                 f"hdr = PrimaryHeader(scid={h['scid']:#x}, src_dest=SourceOrDestField({h['src_dest']}), vcid={h['vcid']}, map_id={h['map_id']}, frame_len={h['frame_len']}, "
+                 f"bypass_seq_ctrl_flag=BypassSequenceControlFlag({h['bypass']}), prot_ctrl_cmd_flag=ProtocolCommandFlag({h['prot_cmd']}), "
+                 f"op_ctrl_flag={p['ocf'] is not None}, vcf_count_len={h['vcf_len']}, vcf_count={h['vcf_count'] if h['vcf_len'] else None})",
+                 f"tfdf = TransferFrameDataField(TfdzConstructionRules({p['rule']}), {p['upid']}, {bytes(p['tfdz'])!r}, {p['ptr']!r})",
+                 f"frame = TransferFrame(hdr, tfdf, {p['iz']!r}, {p['ocf']!r}, {p['fecf']!r})"]
+        if start == "decoded":
+            args = (f"has_insert_zone={p['iz'] is not None}, has_fecf={p['fecf'] is not None}, insert_zone_len={len(p['iz']) if p['iz'] is not None else None}, "
+                    f"fecf_len={len(p['fecf']) if p['fecf'] is not None else None}")
+            lines.append("raw0 = bytes(frame.pack())")
+            if p["rule"] in RU.FIXED_RULES:
+                lines.append(f"frame = TransferFrame.unpack(raw0, FrameType.FIXED, FixedFrameProperties(fixed_len=len(raw0), {args}))")
+            else:
+                lines.append(f"frame = TransferFrame.unpack(raw0, FrameType.VARIABLE, VarFrameProperties(truncated_frame_len=12, {args}))")
+        evs = {e[0]: e for e in self.menu("t")}
+        synced = h["frame_len"] == self._total(p) - 1
+        for n in names:
+            _, attr, spec = evs[n]
+            if attr == "pack":
+                lines.append("frame.pack()")
+            elif attr == "tfdz":
+                lines.append(f"frame.tfdf.tfdz = {self.make_arg(attr, spec)!r}")
+                synced = False
+            else:
+                lines.append("frame.set_frame_len_in_header()")
+                synced = True
+        lines += ["raw = bytes(frame.pack())", "assert frame.len() == len(raw)"]
+        if synced:
+            lines.append("assert int.from_bytes(raw[4:6], 'big') == len(raw) - 1")
+        lines.append("assert bytes(frame.pack()) == raw")
+        return "\n".join(lines)
 
 
 def machines():
@@ -862,6 +921,8 @@ def run_history(mach, cfg, init, start, evs, judge_ctor=True):
             r.obj = mach.decode(r.model, raw)
             if not mach.decoded_ok(r.obj, r.model):
                 r.skip = "decoder-returns-other-values"
+        except NotAStartState:
+            r.skip = "not-applicable(frame length stale by construction)"
         except Exception as e:
             r.skip = "decoder-refuses:" + type(e).__name__
         if r.skip:
@@ -976,8 +1037,11 @@ def report(rec, mach, cfg, ii, init, start, evs, r, fail, seen_purity=None):
             if seen_purity is not None:
                 seen_purity.add(sig)
             pnames = [] if kind.startswith("constructor") else names
-            rec.violation(sig, case_of(mach, cfg, ii, start, pnames), path, "identical deep dump before and after",
-                          repro=mach.repro({"cfg": cfg, "p": init}, start, pnames))
+            if mach.family == "cfdp" and kind.startswith("constructor"):
+                repro = purity_repro(mach.kind, cfg, init, 1 - R.DIRECTION[mach.kind])
+            else:
+                repro = mach.repro({"cfg": cfg, "p": init}, start, pnames)
+            rec.violation(sig, case_of(mach, cfg, ii, start, pnames), path, "identical deep dump before and after", repro=repro)
     if fail is not None:
         sig = f"C11.{fail.clause}/{mach.name}/{fail.kind}/after={culprit_of(start, evs)}"
         rec.violation(sig, case, fail.observed, fail.expected, note=f"history: start={start} ; " + " ; ".join(names),
@@ -1197,6 +1261,14 @@ def purity_inputs(case):
     raise AssertionError(unit)
 
 
+def purity_repro(kind, cfg, p, direction):
+    """self-contained snippet for the caller's PduConfig (the other caller objects are inlined by ctor_source)"""
+    lines = U.ctor_source(kind, dict(U.CFG_DEFAULT, **cfg), p).split("\n")
+    return "\n".join(lines[:-1] + [f"conf.direction = Direction({direction})", "import copy", "before = copy.deepcopy(conf)", lines[-1],
+                                   "assert conf == before, 'the constructor modified the caller\\'s PduConfig'", "pdu.pack()",
+                                   "assert conf == before, 'pack() modified the caller\\'s PduConfig'"])
+
+
 def purity_one(rec, case):
     unit = case["unit"]
     ctor, held, packer = purity_inputs(case)
@@ -1211,7 +1283,11 @@ def purity_one(rec, case):
         return
     d = held_diff(b0, held_dump(held))
     if d:
-        rec.violation(f"C11.purity/{unit}/constructor-modifies-caller-object/{d}", case, d, "identical deep dump before and after")
+        repro = None
+        if unit in U.PDU_KINDS:
+            rcp = U.norm(U.UNITS[unit].corpus(case["tier"])[case["i"]])
+            repro = purity_repro(unit, rcp["cfg"], rcp["params"], case["dir"])
+        rec.violation(f"C11.purity/{unit}/constructor-modifies-caller-object/{d}", case, d, "identical deep dump before and after", repro=repro)
         rec.outcome(f"purity/{unit}/constructor-modifies/{d}")
         b0 = held_dump(held)
     for n in (1, 2):
@@ -1239,19 +1315,22 @@ def shards(tier):
     items = []
     q = tier == "quick"
     for name, m in machines().items():
+        quick_cfgs = m.cfgs("quick")
         for cfg in m.cfgs(tier):
             for ii in range(len(m.inits(cfg))):
                 base = {"kind": "explore", "m": name, "cfg": cfg, "init": ii, "tier": tier}
                 if q:
                     items.append(dict(base, mode="stateless", level="q", depth=3, first=None))
+                    continue
+                items.append(dict(base, mode="bfs", level="t", depth=6))
+                if cfg not in quick_cfgs:
+                    continue  # the two extra ID-width pairs of the thorough tier are explored by the state-hashing search only
+                n = len(m.menu("q"))
+                if n >= SPLIT_FROM:
+                    for f0 in range(n):
+                        items.append(dict(base, mode="stateless", level="q", depth=4, first=f0))
                 else:
-                    n = len(m.menu("q"))
-                    if n >= SPLIT_FROM:
-                        for f0 in range(n):
-                            items.append(dict(base, mode="stateless", level="q", depth=4, first=f0))
-                    else:
-                        items.append(dict(base, mode="stateless", level="q", depth=4, first=None))
-                    items.append(dict(base, mode="bfs", level="t", depth=6))
+                    items.append(dict(base, mode="stateless", level="q", depth=4, first=None))
     for unit in PURITY_UNITS:
         items.append({"kind": "purity", "unit": unit, "tier": tier})
     # heavy shards first so that the pool drains evenly
@@ -1264,8 +1343,6 @@ def run_shard(item):
     if item["kind"] == "purity":
         for case in purity_cases(item["unit"], item["tier"]):
             purity_one(rec, case)
-        rec.states += 1
-        rec.transitions += 1
         return rec.result()
     mach = M(item["m"])
     cfg = item["cfg"]
@@ -1285,7 +1362,7 @@ def run_shard(item):
     rec.count(f"states/{mach.name}", n)
     for a in mach.skipped_setters():
         rec.count(f"listed_setter_absent/{mach.name}.{a}")
-    if forms and item["init"] == 0 and (item.get("first") in (None, 0)):
+    if forms and item["init"] == 0 and item.get("first") in (None, 0) and (cfg.get("crc", 0), cfg.get("large", 0), cfg.get("idw", 1)) == (0, 0, 1):
         ex_evs = mach.events(item["level"])[:2]
         model = {"cfg": dict(cfg), "p": copy.deepcopy(init)}
         for ev in ex_evs:
